@@ -817,7 +817,8 @@ def level_vs_deviation(spec, m, sc, tol=1e-7) -> list[str]:
 
 def _accept(spec):
     """independent determinacy classification of a generated model: (V, Jc, nf, n_unstable, distance from the unit circle)"""
-    V = own_steady(spec)
+    with np.errstate(all="ignore"):
+        V = own_steady(spec)
     if V is None:
         return None
     if any(spec["logs"]) and np.abs(V).max() > 20:
